@@ -299,6 +299,33 @@ func registerNumberStubs(reg func(string, intrinsic)) {
 		}
 		return x.formatFloat(f, byte(verb.u))
 	})
+	// Append* = append(dst, Format*(...)...)
+	appendStr := func(x *Exec, dst value, s strVal) value {
+		d := dst.(sliceVal)
+		bs := x.bytesOf(s)
+		out := make([]value, 0, len(d.a)+len(bs))
+		out = append(out, d.a...)
+		for _, b := range bs {
+			out = append(out, b)
+		}
+		// a fresh backing array (a legal outcome of append; aliasing of dst's spare capacity is not modelled)
+		return sliceVal{a: out}
+	}
+	reg("strconv.AppendFloat", func(x *Exec, fr *frame, args []value) value {
+		s := intrinsics["strconv.FormatFloat"](x, fr, args[1:]).(strVal)
+		return appendStr(x, args[0], s)
+	})
+	reg("strconv.AppendInt", func(x *Exec, fr *frame, args []value) value {
+		s := intrinsics["strconv.FormatInt"](x, fr, args[1:]).(strVal)
+		return appendStr(x, args[0], s)
+	})
+	reg("strconv.AppendBool", func(x *Exec, fr *frame, args []value) value {
+		b := args[1].(*Term)
+		if x.branch(b) {
+			return appendStr(x, args[0], strVal{s: "true"})
+		}
+		return appendStr(x, args[0], strVal{s: "false"})
+	})
 	reg("strconv.ParseFloat", func(x *Exec, fr *frame, args []value) value {
 		s := args[0].(strVal)
 		if c, ok := s.concrete(); ok {
